@@ -4,19 +4,19 @@ import json, sys
 
 CHECKS = {
  "C04": dict(level="exploration", design="3/C04",
-   technique="property-based testing: seeded proptest generators over byte-stream recipes and call partitions, differential against an independent reference gear chunker, metamorphic locality relation; libFuzzer target in thorough tier",
+   technique="property-based testing: seeded proptest generators over byte-stream recipes and call partitions, differential against an independent reference gear chunker, metamorphic locality relation; thorough tier adds coverage-guided fuzzing: libFuzzer (cargo-fuzz) target chunker_diff with the same oracle inside the target, fixed -runs in 8 processes, crash = shrunk replay + VIOLATION",
    text="Generated-input search (tens of thousands of streams x call partitions per run, all power-of-two targets 2^7..2^16) compared boundary-for-boundary with an independently written reference chunker and chunk hash; exploration is the right level because the property quantifies over unbounded byte streams and call partitions, which can only be sampled - the reference rule makes each sample a full functional check rather than a self-consistency check.",
    note="Trusts: the reference chunker in harness/src/refs/chunker.rs (written from the documented rule), the gear table data of the gearhash crate, the blake3 crate. Divisor/multiplier fixed at the shipped 8 and 2."),
  "C06": dict(level="exploration", design="3/C06",
-   technique="property-based testing: seeded proptest generators over chunk lists / byte strings / hash text, differential against an independent Merkle reference and across all in-repo code paths, metamorphic change/swap/insert/drop relations, committed golden vectors",
+   technique="property-based testing: seeded proptest generators over chunk lists / byte strings / hash text, differential against an independent Merkle reference and across all in-repo code paths, metamorphic change/swap/insert/drop relations, committed golden vectors; thorough tier adds coverage-guided fuzzing: libFuzzer (cargo-fuzz) target hash_text and merkle_tree with the same oracle inside the target, fixed -runs in 8 processes, crash = shrunk replay + VIOLATION",
    text="Every generated chunk list is hashed through every code path (uploader, both validators' path, file/xorb/range/salt/HMAC helpers, streaming hasher) and compared with an independently written implementation of the published construction plus golden vectors; exploration because the quantifier is over all lists/strings, sampled with engineered branching words, repeats and extreme lengths.",
    note="Trusts the reference in harness/src/refs/merkle.rs and the blake3 crate. Precondition: equal chunk hash implies equal length; all-zero leaf hashes excluded (BLAKE3 preimage)."),
  "C07": dict(level="exploration", design="3/C07",
-   technique="property-based testing: seeded proptest generators over chunk lists x compression scheme, round trip against the input plus differential against an independent reference xorb decoder and across the sync / async / stream decoders; exhaustive small lengths for BG4",
+   technique="property-based testing: seeded proptest generators over chunk lists x compression scheme, round trip against the input plus differential against an independent reference xorb decoder and across the sync / async / stream decoders; exhaustive small lengths for BG4; thorough tier adds coverage-guided fuzzing: libFuzzer (cargo-fuzz) target xorb_roundtrip (incl. the stream decoder under input-derived fragmentation) with the same oracle inside the target, fixed -runs in 8 processes, crash = shrunk replay + VIOLATION",
    text="Round trip of generated xorbs (all schemes, all byte classes, every chunk range on small objects) checked against the original data, an independently written decoder that re-derives physical boundaries and footer, and pairwise decoder agreement under generated stream fragmentation; exploration because chunk lists and contents are unbounded.",
    note="Trusts lz4_flex frame coding (shared with the reference decoder) and harness/src/refs/xorb.rs."),
  "C08": dict(level="exploration", design="3/C08",
-   technique="property-based testing / structured mutation fuzzing: generated mutation programs (region-addressed byte flips, truncation, record splices, inflated counts and lengths, stale or rebuilt footers) over valid xorbs plus random inputs, oracle = independent reference decoder (acceptance implies consistency; canonical objects must be accepted), panics caught, allocation cap enforced by a counting allocator in journaled child processes; libFuzzer target in thorough tier",
+   technique="property-based testing / structured mutation fuzzing: generated mutation programs (region-addressed byte flips, truncation, record splices, inflated counts and lengths, stale or rebuilt footers) over valid xorbs plus random inputs, oracle = independent reference decoder (acceptance implies consistency; canonical objects must be accepted), panics caught, allocation cap enforced by a counting allocator in journaled child processes; thorough tier adds coverage-guided fuzzing: libFuzzer (cargo-fuzz) target xorb_validate (seeded with valid objects, structure-aware splice selector) with the same oracle inside the target, fixed -runs in 8 processes, crash = shrunk replay + VIOLATION",
    text="Each generated (object, claimed hash) pair is run through both validators and the footer parser; acceptance is checked against a reference decoder's view of decodability, recomputed hash and footer consistency, canonical valid objects must be accepted for their own hash only, and panics / oversized allocation requests are violations. Exploration: mutation space is sampled with region-aware generators rather than enumerated.",
    note="Trusts harness/src/refs/xorb.rs and lz4_flex. The streaming validator is allowed to ignore version-0 footers and accept footer-less objects (documented behaviour); zero-chunk objects are outside the valid-object clause."),
  "C05": dict(level="exploration", design="3/C05",
@@ -24,7 +24,7 @@ CHECKS = {
    text="Every positive dedup answer from the in-memory index, a serialized shard and shard-manager histories (flush, planted plain and keyed shards under up to 3 keys and all include flags, re-open, consolidation) is checked against the universe of xorbs: named xorb exists, range fits, hashes equal the query prefix, byte count is the sum. Exploration over generated contents/histories; hit rate on expected-present runs is reported to expose vacuity.",
    note="Soundness only (completeness is C11's subject). Queries non-empty. Trusts the map model in harness/src/props/c05.rs."),
  "C09": dict(level="exploration", design="3/C09",
-   technique="property-based testing: seeded proptest generators over shard contents with engineered truncated keys (extremes, clusters, up to 7 per prefix) and raw sorted tables with duplicate runs; oracle = the map model the shard was built from and a linear-scan model of the on-disk search; reader differential (seekable / streaming sync+async / minimal)",
+   technique="property-based testing: seeded proptest generators over shard contents with engineered truncated keys (extremes, clusters, up to 7 per prefix) and raw sorted tables with duplicate runs; oracle = the map model the shard was built from and a linear-scan model of the on-disk search; reader differential (seekable / streaming sync+async / minimal); thorough tier adds coverage-guided fuzzing: libFuzzer (cargo-fuzz) target sorted_search with the same oracle inside the target, fixed -runs in 8 processes, crash = shrunk replay + VIOLATION",
    text="Generated shards (0..3000 files, 0..600 xorbs) are serialized and every key, same-prefix / neighbouring / random absent key, every scan and every reader is compared with the model maps; the interpolation search is separately compared with a linear scan on tables up to 6000 entries. Exploration because contents are unbounded; generators are built to cross the 256-entry read window and to collide prefixes.",
    note="Contents are sets of distinct keys; at most 7 records per truncated prefix (documented lookup limit). Trusts the model in harness/src/gen/shard.rs."),
  "C10": dict(level="exploration", design="3/C10",
@@ -80,8 +80,8 @@ CHECKS = {
    text="For each generated scenario (operation x prior history) EVERY point between two file-system effects of the operation is exercised - the process is killed at the entry of each mutating system call in turn - and the directory is then re-opened and checked. Exhaustive per scenario over crash points under exactly the property's crash model; scenarios are sampled.",
    note='Process-stop model only (completed system calls persist). Relies on strace 6.1 injection semantics; each injected run is re-traced and must have died at the intended call, otherwise the point is skipped and counted.'),
  "C20": dict(level="exploration", design="3/C20",
-   technique='property-based testing of event scripts: calls / gate releases / yields on a current-thread runtime with a paused virtual clock and a generated plan of yields at guarded points inside Group::work (deterministic, hangs detected by a virtual 1-hour timeout), and the same scripts on 2-4 worker multi-thread runtimes; oracle = invariants over the logged call intervals and task starts',
-   text="Each script's event log is checked: one task start per owning call, owners get their own outcome, every waiter's result is the outcome of an overlapping owner of the same key (value, error payload or panic notification), nobody hangs. Exploration over scripts and yield plans; liveness is decided on the virtual clock.",
+   technique='property-based testing of event scripts: calls / gate releases / yields on a current-thread runtime with a paused virtual clock and a generated plan of yields at guarded points inside Group::work (deterministic, hangs detected by a virtual 1-hour timeout), and the same scripts on 2-4 worker multi-thread runtimes; oracle = invariants over the logged call intervals, task starts and task execution intervals (no two executions for one key overlap)',
+   text="Each script's event log is checked: one task start per owning call, owners get their own outcome, every waiter's result is the outcome of an overlapping owner of the same key (value, error payload or panic notification), executions of two tasks of one key never overlap, nobody hangs. Exploration over scripts and yield plans; liveness is decided on the virtual clock.",
    note='Callers are not cancelled. Mode B samples OS schedules; a hang there is reported as inconclusive (exit 2).'),
 }
 
@@ -115,6 +115,8 @@ def main():
             "add_only": True,
         },
         "engines": [
+            {"name": "xv-fuzz", "path": "/verif/fuzz", "serves_properties": ["C04", "C06", "C07", "C08", "C09"],
+             "kind_free_text": "cargo-fuzz crate (libFuzzer, nightly toolchain, debug assertions and overflow checks on): targets chunker_diff, hash_text, merkle_tree, xorb_roundtrip, xorb_validate, sorted_search decode the fuzzer's bytes into structured arguments and call the same oracle functions as the proptest checks; built and driven by the xv binary in the thorough tier (harness/src/fuzzdrv.rs)"},
             {"name": "xv", "path": "/verif/harness", "serves_properties": sorted(CHECKS.keys()),
              "kind_free_text": "Rust binary (path-deps on /repo crates): seeded proptest TestRunner streams with shrinking and JSON replay files, independent reference implementations as oracles, child-process workers for configuration sweeps / crash isolation, known-findings handling, evidence writer"},
         ],
